@@ -331,9 +331,19 @@ def r01h(chk, rid='R01.h'):
     raised &= set(family)
     if len(raised) < 3:
         raise AnalysisError(f'nextProd implementations raise only {sorted(raised)}')
-    fn = m.get('ProdParser.parse')
+    # ProdParser.parse and the private methods it calls (transitively)
+    todo, fns = ['parse'], []
+    while todo:
+        nm = todo.pop()
+        if not m.has(f'ProdParser.{nm}') or any(f.name == nm for f in fns):
+            continue
+        f = m.get(f'ProdParser.{nm}')
+        fns.append(f)
+        for c in ast.walk(f):
+            if isinstance(c, ast.Call) and isinstance(c.func, ast.Attribute) and isinstance(c.func.value, ast.Name) and c.func.value.id == 'self':
+                todo.append(c.func.attr)
     n = 0
-    for c in ast.walk(fn):
+    for fn, c in [(f, c) for f in fns for c in ast.walk(f)]:
         if isinstance(c, ast.Call) and isinstance(c.func, ast.Attribute) and c.func.attr == 'nextProd':
             n += 1
             covered = set()
@@ -348,7 +358,7 @@ def r01h(chk, rid='R01.h'):
                             covered.add(nm)
                 child, p = p, m.parents.get(p)
             missing = sorted(raised - covered)
-            chk.ob(rid, 'cssutils/prodparser.py', 'ProdParser.parse', f'`{text(c)}`: {sorted(raised)} are all handled', not missing,
+            chk.ob(rid, 'cssutils/prodparser.py', f'ProdParser.{fn.name}', f'`{text(c)}`: {sorted(raised)} are all handled', not missing,
                    f'{missing} can propagate out of parse(): a value or media query that does not match raises an internal exception instead of being reported')
     if n < 2:
         raise AnalysisError('ProdParser.parse: nextProd calls not found')
@@ -438,7 +448,7 @@ def r01i(chk, rid='R01.i'):
 
 def _site_of(m, cb, call):
     """Is the callback expression part of this call (a function may hold two _parse calls)?"""
-    return any(x is cb.expr for x in ast.walk(call))
+    return cb.call is call
 
 
 # ---------------------------------------------------------------------------
@@ -552,13 +562,13 @@ def r01k(chk, rid='R01.k'):
             continue
         t = n.stmt.test
         src = text(t)
-        relevant = 'len(check)' in src or 'len(raw)' in src or ('check' in src and 'checks[' in src)
+        relevant = 'len(check)' in src or 'len(raw)' in src or (isinstance(t, ast.Compare) and isinstance(t.left, ast.Name) and t.left.id == 'check' and isinstance(t.ops[0], (ast.In, ast.NotIn)))
         if not relevant:
             continue
         lab = None
         if isinstance(t, ast.Compare) and len(t.ops) == 1:
             op = t.ops[0]
-            if isinstance(t.left, ast.Name) and t.left.id == 'check' and 'checks[' in text(t.comparators[0]):
+            if isinstance(t.left, ast.Name) and t.left.id == 'check' and isinstance(op, (ast.In, ast.NotIn)):
                 lab = 'false' if isinstance(op, ast.NotIn) else 'true' if isinstance(op, ast.In) else None
             elif text(t.left) in ('len(check)', 'len(raw)'):
                 k = const(t.comparators[0])
@@ -569,7 +579,8 @@ def r01k(chk, rid='R01.k'):
                            'LtE': 'false' if k >= 2 else None, 'Eq': 'true' if k >= 3 else None, 'NotEq': 'false' if k >= 3 else None}.get(opn)
                     if lab is None and opn in ('Gt', 'GtE', 'Lt', 'LtE', 'Eq', 'NotEq'):
                         continue  # a test that establishes nothing
-                elif 'checks[' in text(t.comparators[0]):
+                elif isinstance(t.comparators[0], ast.Call) and call_name(t.comparators[0]) == 'len':
+                    # compared with the length of an entry of the parameter table
                     lab = {'NotEq': 'false', 'Eq': 'true'}.get(opn)
         if lab is None:
             raise AnalysisError(f'ColorValue._setCssText: count test `{src}` not in a recognised form')
